@@ -149,4 +149,7 @@ def Instr.ofName (s : String) : Instr :=
 
 def Instr.isRegistered (i : Instr) : Bool := Instr.all.contains i
 
+/-- the parser's instruction test: the token is one of the registered names -/
+def Instr.isName (tok : String) : Bool := Instr.table.any (·.1 == tok)
+
 end Pushr
